@@ -59,7 +59,19 @@ pub fn probe(r: &mut Runner) {
         if !vo.ok {
             continue;
         }
-        let traders = r.w.trading_accounts();
+        let mut traders = r.w.trading_accounts();
+        // accounts that never traded but whose address, appended to this vAMM's, reads like another vAMM's address
+        // followed by a real trader's (a storage key derived from the bare concatenation makes the two share whatever is
+        // kept per (vAMM, trader)): they are bystanders like any other
+        let va = r.w.addrs.vamms[v].clone();
+        for (j, vb) in r.w.addrs.vamms.iter().enumerate() {
+            if j != v && vb.len() > va.len() && vb.starts_with(va.as_str()) {
+                let suffix = &vb[va.len()..];
+                for t in r.w.trading_accounts() {
+                    traders.push(format!("{}{}", suffix, t));
+                }
+            }
+        }
         for t in traders {
             let pos = r.obs.position(v, &t).cloned();
             let touched = r.model.touched.get(&(v, t.clone())).cloned();
